@@ -110,6 +110,12 @@ fn("fun", 'function fun(k) return string is begin if k == 1 then s = "a"; end if
    {"fun(0)": "r=TRUEstringTRUEFALSE\n", "fun(1)": "r=FALSEstringFALSEFALSE\n"})
 fn("fdeep", 'function fdeep(n, k) return string is begin if n > 0 then return fdeep(n - 1, k); end if; if k == 1 then s = "a"; end if; x = upper(s); return str(isnull(s)) + typeof(s) + str(isnull(x)); end;',
    {"fdeep(0, 0)": "r=TRUEstringTRUE\n", "fdeep(3, 0)": "r=TRUEstringTRUE\n", "fdeep(3, 1)": "r=FALSEstringFALSE\n", "fdeep(5, 0)": "r=TRUEstringTRUE\n"})
+# unset locals of every container type, each assigned by some calls only: a reused context must hand them out unset, not emptied
+fn("flc", 'function flc(k) return string is begin if k == 1 then wt = tab(2, 1); end if; if k == 2 then wr = tup(1, "a"); wb = raw("ab"); end if; '
+   'if k == 3 then ww = tab(1, tab(1, 1)); ws = "str"; end if; '
+   'return str(isnull(wt)) + str(isnull(wr)) + str(isnull(wb)) + str(isnull(ww)) + str(isnull(ws)) + str(isnull(wt.count())) + str(isnull(ww.count())); end;',
+   {"flc(0)": "r=TRUETRUETRUETRUETRUETRUETRUE\n", "flc(1)": "r=FALSETRUETRUETRUETRUEFALSETRUE\n", "flc(2)": "r=TRUEFALSEFALSETRUETRUETRUETRUE\n",
+    "flc(3)": "r=TRUETRUETRUEFALSEFALSETRUEFALSE\n"})
 fn("farg", "function farg(a, b) return integer is begin if isnull(c) then c = 0; end if; c = c + a * 10 + b; return c; end;", {})
 # farg reads c before assignment lexically -> must be rejected; handled separately
 
@@ -121,7 +127,7 @@ GROUPS = {
     "fx": ["fx"], "fs": ["fs"], "ft": ["ft"], "fxi": ["fxi"], "facc": ["facc"], "fl": ["fl"], "fact": ["fact"], "fib": ["fib"],
     "evod": ["ev", "od2"], "fm": ["fm"], "fms": ["fms"], "fmi": ["fmi"], "fhe": ["fhe"], "fue": ["fue"], "ffa": ["ffa"], "ffe": ["ffe"],
     "fle": ["fle"], "fwe": ["fwe"], "frn": ["frn"], "fo": ["fo0", "fo1", "fo2"], "fp": ["fp"], "fty": ["fty"], "fsafe": ["fsafe"], "fnr": ["fnr"],
-    "add": ["add"], "mark": ["mark"], "at": ["at"], "ferr": ["ferr"], "ftf": ["fonce2", "ftf"], "ftr": ["ftr"], "flast": ["flast"], "fnl": ["fnl"], "fun": ["fun"], "fdeep": ["fdeep"],
+    "add": ["add"], "mark": ["mark"], "at": ["at"], "ferr": ["ferr"], "ftf": ["fonce2", "ftf"], "ftr": ["ftr"], "flast": ["flast"], "fnl": ["fnl"], "flc": ["flc"], "fun": ["fun"], "fdeep": ["fdeep"],
 }
 
 
